@@ -274,7 +274,7 @@ impl<'a, const BITS: usize, const LIMBS: usize> FromSql<'a> for Uint<BITS, LIMBS
                     || exponent < 0
                     || sign != 0x0000
                     || dscale != 0
-                    || digits > exponent + 1
+                    || i32::from(digits) > i32::from(exponent) + 1
                     || raw.len() != digits as usize * 2
                 {
                     return Err(Box::new(FromSqlError::ParseError(ty.clone())));
